@@ -1,5 +1,7 @@
 import MidnightZK.Proofs.C18.Fail
 import MidnightZK.Gen.C18Tables
+import MidnightZK.Gen.C18Serde
+import MidnightZK.Proofs.C18.JsonRoundTrip
 /-!
 # C18 — ZKIR: off-circuit evaluation and the compiled circuit agree on every program
 
@@ -222,5 +224,207 @@ theorem typing_errors_agree_fails_for_comparisons (H : Hashes) :
   ⟨[⟨.load .bool, [], ["a"]⟩, ⟨.load .native, [], ["b"]⟩, ⟨.isEq, ["a", "b"], ["c"]⟩, ⟨.publish, ["c"], []⟩],
    [("a", .bool true), ("b", .native 1)], [.bool false], .unsupported .isEq [.bool, .native],
    by rfl, by rfl, by rfl⟩
+
+/-! ## What `RunRegular` covers -/
+
+/-- `RunRegular` restricts exactly one operation at one type: it holds — for every witness, all
+hash functions and from every interpreter state — as soon as the program contains no
+`FromBytes(JubjubScalar)`. All 17 operations on all 6 value types are therefore covered by
+`off_in_agree_partial` / `off_fail_unsat_partial`; for `FromBytes(JubjubScalar)` the covered
+inputs are byte strings of 1 to 31 bytes (`RegularScalarBytes`). -/
+theorem runRegular_of_no_scalar_conversion (H : Hashes) (w : Witness) :
+    ∀ (p : Program) (so : OffState), (∀ i ∈ p, i.op ≠ .fromBytes .scalar) → RunRegular H w so p
+  | [], _, _ => trivial
+  | i :: rest, so, h =>
+    ⟨fun _ _ hop => absurd hop (h i (List.mem_cons_self ..)),
+     fun so' _ => runRegular_of_no_scalar_conversion H w rest so'
+       (fun j hj => h j (List.mem_cons_of_mem _ hj))⟩
+
+/-- **Off-circuit rejection ⇒ the compiled circuit is not satisfied, at full strength for every
+program without `FromBytes(JubjubScalar)`** (a syntactic class: 16 operations unrestricted, and
+`FromBytes` at the five other types): no side condition on the run is left. -/
+theorem off_fail_unsat_no_scalar_conversion (H : Hashes) (p : Program) (w : Witness) (e : Err)
+    (hw : WitnessCanonical w) (hp : ∀ i ∈ p, i.op ≠ .fromBytes .scalar)
+    (h : evalOff H p w = .error e) : ∀ pis, evalIn H p w ≠ .ok (some pis) :=
+  off_fail_unsat_partial H p w e hw (runRegular_of_no_scalar_conversion H w p {} hp) h
+
+/-- Same for the success direction (the other three caveats of `off_in_agree_partial` remain:
+static rejection by a comparison or a limb-bookkeeping panic, `format_instance` succeeding,
+public-input types of this run). -/
+theorem off_in_agree_no_scalar_conversion_partial (H : Hashes) (p : Program) (w : Witness)
+    (P : List IrValue) (hw : WitnessCanonical w) (hp : ∀ i ∈ p, i.op ≠ .fromBytes .scalar)
+    (h : evalOff H p w = .ok P) :
+    (∃ e, evalIn H p w = .error e ∧ e.isStaticReject = true) ∨
+    (∃ st, runIn H (some w) {} p = .ok st ∧ evalIn H p w = .ok (some st.pis) ∧
+      st.piTypes.length = P.length ∧ ∀ pi, encodePI P st.piTypes = .ok pi → pi = st.pis) :=
+  off_in_agree_partial H p w P hw (runRegular_of_no_scalar_conversion H w p {} hp) h
+
+/-- Non-vacuity: the `Sub` example is in the class; the N7 counterexample is not. -/
+example : ∀ i ∈ ([⟨.load (.big 8), [], ["x", "y"]⟩, ⟨.sub, ["x", "y"], ["z"]⟩, ⟨.publish, ["z"], []⟩] : Program),
+    i.op ≠ .fromBytes .scalar := by
+  intro i hi
+  simp only [List.mem_cons, List.not_mem_nil, or_false] at hi
+  rcases hi with rfl | rfl | rfl <;> simp
+
+/-! ## Binary round trip (`write_relation` / `read_relation`) -/
+
+/-- The parameters of the real decoder on the 64-bit build the check runs
+(`size_of::<Instruction>() = 72`, `size_of::<String>() = 24`, reported by the harness on every
+request) with the limit written in `zkir.rs` today. -/
+def realParams : BParams := ⟨72, 24, Gen.programDecodingLimit⟩
+
+/-- **Binary round trip.** For every program whose integers fit their Rust types
+(`ProgInRange`: automatically true of a Rust value) and whose decoding stays within the
+allocation limit of `read_relation` (`claimBound`: 8 + 72 bytes per instruction + 24 per name +
+the bytes of the names + the integers, against `PROGRAM_DECODING_LIMIT`), decoding the bytes
+`write_relation` produced — followed by anything — returns the same program and leaves exactly
+what follows in the reader (the relation is embedded in a serialized proving key). Holds for
+every compiled size and every limit, not only `realParams`. -/
+theorem decode_encode_bin (P : BParams) (p : Program) (rest : List Nat)
+    (hr : ProgInRange p) (hl : claimBound P p ≤ P.limit) :
+    decodeBinPrefix false P (encodeBin p ++ rest) = .ok (p, rest) ∧
+    decodeBin P (encodeBin p) = .ok p := by
+  have h1 := decodeBinPrefix_enc false P p rest hr hl
+  have h2 := decodeBinPrefix_enc false P p [] hr hl
+  rw [List.append_nil] at h2
+  exact ⟨h1, by simp [decodeBin, h2]⟩
+
+/-- `read_relation` after `write_relation` on a program accepted by `from_instructions`. -/
+theorem read_write_relation (P : BParams) (p : Program) (rest : List Nat)
+    (hr : ProgInRange p) (hl : claimBound P p ≤ P.limit) (hload : loadProgram p = .ok ()) :
+    readRelation P (encodeBin p ++ rest) = .ok (p, rest) := by
+  simp [readRelation, (decode_encode_bin P p rest hr hl).1, hload]
+
+/-- Non-vacuity with the real parameters: a three-instruction program with a non-ASCII name. -/
+example :
+    let p : Program := [⟨.load (.big 300), [], ["x", "é"]⟩, ⟨.modExp 65537, ["x", "é"], ["y"]⟩,
+      ⟨.publish, ["y"], []⟩]
+    ProgInRange p ∧ claimBound realParams p ≤ realParams.limit ∧ loadProgram p = .ok () ∧
+    encodeBin p = [3, 0, 3, 251, 44, 1, 0, 2, 1, 120, 2, 195, 169, 9, 252, 1, 0, 1, 0, 2, 1, 120,
+      2, 195, 169, 1, 1, 121, 1, 1, 1, 121, 0] := by
+  refine ⟨⟨by decide, ?_⟩, by decide, by rfl, by decide⟩
+  intro i hi
+  simp only [List.mem_cons, List.not_mem_nil, or_false] at hi
+  rcases hi with rfl | rfl | rfl <;>
+    exact ⟨by simp [Op.InRange, IrType.InRange], ⟨by decide, by decide⟩, ⟨by decide, by decide⟩⟩
+
+/-- The limit hypothesis is needed, and this is how the real code behaves: a program whose
+instruction count alone exceeds the limit (`8 + 72·n > 2^24`, i.e. more than 233 016
+instructions with the real parameters) is written by `write_relation` but **rejected** by
+`read_relation` with `LimitExceeded` — it does not survive its binary round trip. -/
+theorem decode_rejects_beyond_limit (P : BParams) (p : Program) (rest : List Nat)
+    (hlen : p.length < 2 ^ 64) (h8 : 8 ≤ P.limit) (hbig : P.limit < 8 + p.length * P.sizeInstr) :
+    decodeBinPrefix false P (encodeBin p ++ rest) = .error .limit :=
+  decodeBinPrefix_limit false P p rest hlen h8 hbig
+
+/-- Non-vacuity: with the real sizes, 233 017 instructions are enough. -/
+example : realParams.limit < 8 + 233017 * realParams.sizeInstr ∧
+    8 + 233016 * realParams.sizeInstr ≤ realParams.limit := by decide
+
+/-- **The binary encoding is injective** on programs that are images of Rust values: two
+programs with the same bytes are equal. -/
+theorem encodeBin_injective (p q : Program) (hp : ProgInRange p) (hq : ProgInRange q)
+    (h : encodeBin p = encodeBin q) : p = q := by
+  have hb : ∀ (L : Nat) (r : Program), claimBound ⟨1, 1, L⟩ r = claimBound ⟨1, 1, 0⟩ r := by
+    intro L r
+    have : sumBound ⟨1, 1, L⟩ r = sumBound ⟨1, 1, 0⟩ r := by
+      induction r with
+      | nil => rfl
+      | cons i t ih => simp only [sumBound, boundInstr, ih]
+    simp only [claimBound, this]
+  let L := claimBound ⟨1, 1, 0⟩ p + claimBound ⟨1, 1, 0⟩ q
+  have e1 := decodeBinPrefix_enc false ⟨1, 1, L⟩ p [] hp (by rw [hb]; exact Nat.le_add_right _ _)
+  have e2 := decodeBinPrefix_enc false ⟨1, 1, L⟩ q [] hq (by rw [hb]; exact Nat.le_add_left _ _)
+  rw [h, e2] at e1
+  simp only [Except.ok.injEq, Prod.mk.injEq, and_true] at e1
+  exact e1.symm
+
+/-- **Canonical form, exactly.** `strict` rejects a variable-length integer written wider than
+necessary and is otherwise the real decoder. (1) What the strict decoder accepts is exactly an
+encoder output followed by the unread rest: so two byte strings accepted strictly with the same
+program and the same rest are equal. (2) The real decoder accepts everything the strict one
+does, with the same result. Hence the *only* non-canonical inputs `read_relation` tolerates are
+over-wide integers (lengths, variant indices, payloads) — and bytes after the program, which
+it leaves unread. Partial with respect to "two byte strings decoding to the same program are
+equal", which is false for the real decoder (`decode_not_canonical`). -/
+theorem decode_canonical_partial (P : BParams) (bs rest : List Nat) (p : Program)
+    (hwf : BytesWF bs) (h : decodeBinPrefix true P bs = .ok (p, rest)) :
+    bs = encodeBin p ++ rest ∧ decodeBinPrefix false P bs = .ok (p, rest) :=
+  ⟨decodeBinPrefix_canon h hwf, decodeBinPrefix_lax h⟩
+
+/-- Witness that the real decoder is not canonical: the one-instruction program `Publish x` is
+also accepted when its instruction count `1` is written `fb 01 00`, when the variant index of
+`Publish` is written `fc 01 00 00 00`, or when a name length is written with 8 bytes; the strict
+decoder rejects all three. -/
+theorem decode_not_canonical :
+    let p : Program := [⟨.publish, ["x"], []⟩]
+    encodeBin p = [1, 1, 1, 1, 120, 0] ∧
+    decodeBin realParams [251, 1, 0, 1, 1, 1, 120, 0] = .ok p ∧
+    decodeBin realParams [1, 252, 1, 0, 0, 0, 1, 1, 120, 0] = .ok p ∧
+    decodeBin realParams [1, 1, 1, 253, 1, 0, 0, 0, 0, 0, 0, 0, 120, 0] = .ok p ∧
+    decodeBinPrefix true realParams [251, 1, 0, 1, 1, 1, 120, 0] = .error .nonMinimal ∧
+    decodeBinPrefix true realParams [1, 252, 1, 0, 0, 0, 1, 1, 120, 0] = .error .nonMinimal ∧
+    decodeBinPrefix true realParams [1, 1, 1, 253, 1, 0, 0, 0, 0, 0, 0, 0, 120, 0] = .error .nonMinimal := by
+  refine ⟨by decide, by rfl, by rfl, by rfl, by rfl, by rfl, by rfl⟩
+
+/-- The integer widths the decoder model uses are those of the payload types written in the
+sources today (`Bytes(usize)`, `BigUint(u32)`, `ModExp(u64)`, `IntoBytes(usize)`, the two
+`IrType` payloads), and the limit is a positive number of bytes. -/
+theorem payload_types_match_source :
+    lookup "Bytes" Gen.irTypes = some "usize" ∧ lookup "BigUint" Gen.irTypes = some "u32" ∧
+    lookup "ModExp" Gen.operations = some "u64" ∧ lookup "IntoBytes" Gen.operations = some "usize" ∧
+    lookup "Load" Gen.operations = some "IrType" ∧ lookup "FromBytes" Gen.operations = some "IrType" ∧
+    (Gen.operations.filter (fun x => x.2 ≠ "")).length = 4 ∧
+    (Gen.irTypes.filter (fun x => x.2 ≠ "")).length = 2 ∧
+    8 ≤ Gen.programDecodingLimit ∧ Gen.programDecodingLimit < 2 ^ 64 := by
+  decide
+
+/-! ## JSON round trip (`ZkirRelation::read`, serde) -/
+
+/-- **JSON round trip at the level of the serde data model.** Reading the tree the derived
+`Serialize` produces gives the program back, for every program whose operation payloads fit
+their Rust types. -/
+theorem fromJson_toJson (p : Program) (hr : ∀ i ∈ p, i.op.InRange) : fromJson (toJson p) = .ok p := by
+  simp [fromJson, toJson, progFields, instrsFromJson, instrsFromJson_toJson p hr]
+
+example : fromJson (toJson [⟨.load (.bytes 5), [], ["x"]⟩, ⟨.publish, ["x"], []⟩])
+    = .ok [⟨.load (.bytes 5), [], ["x"]⟩, ⟨.publish, ["x"], []⟩] :=
+  fromJson_toJson _ (by
+    intro i hi
+    simp only [List.mem_cons, List.not_mem_nil, or_false] at hi
+    rcases hi with rfl | rfl <;> simp [Op.InRange, IrType.InRange])
+
+/-- The reader is more liberal than the writer (kept visible): `inputs` / `outputs` may be
+omitted, unknown keys are ignored, a unit variant may be written `{"publish": null}`, an
+instruction may be a positional array — four different trees, one program. -/
+theorem fromJson_not_injective :
+    let p : Program := [⟨.publish, ["x"], []⟩]
+    fromJson (.obj [("instructions", .arr [.obj [("op", .str "publish"), ("inputs", .arr [.str "x"])]])]) = .ok p ∧
+    fromJson (.obj [("v", .num 1), ("instructions", .arr [.obj [("inputs", .arr [.str "x"]),
+      ("op", .obj [("publish", .null)]), ("outputs", .arr [])]])]) = .ok p ∧
+    fromJson (.obj [("instructions", .arr [.arr [.str "publish", .arr [.str "x"]]])]) = .ok p ∧
+    fromJson (toJson p) = .ok p := by
+  refine ⟨by rfl, by rfl, by rfl, by rfl⟩
+
+/-- The serde names the model writes and reads are those derived from the sources today
+(`rename_all = "snake_case"` on `Operation`, none on `IrType`; computed by the translator with
+serde's rule on every run), and the field names, order and defaults of `Instruction` and
+`Program` are the ones declared. -/
+theorem serde_names_match_source (op : Op) :
+    (op.name, op.serdeName) ∈ Gen.serdeOperations ∧ Gen.serdeOperations.length = 17 ∧
+    Gen.serdeIrTypes.map (·.2) = [IrType.serdeName .bool, IrType.serdeName (.bytes 0),
+      IrType.serdeName .native, IrType.serdeName (.big 0), IrType.serdeName .point,
+      IrType.serdeName .scalar] ∧
+    Gen.serdeIrTypes.map (·.1) = Gen.irTypes.map (·.1) ∧
+    Gen.serdeInstrFields = [("operation", "op", false, "operations::Operation"),
+      ("inputs", "inputs", true, "Vec<String>"), ("outputs", "outputs", true, "Vec<String>")] ∧
+    Gen.serdeProgramFields = [("instructions", "instructions", false, "Vec<Instruction>")] := by
+  cases op <;> simp only [Op.name, Op.serdeName] <;> decide
+
+/-- The keys `toJson` writes are the declared serde field names, in declaration order. -/
+theorem toJson_keys_match_source (i : Instr) (p : Program) :
+    (match instrToJson i with | .obj kvs => kvs.map (·.1) | _ => []) = Gen.serdeInstrFields.map (fun x => x.2.1) ∧
+    (match toJson p with | .obj kvs => kvs.map (·.1) | _ => []) = Gen.serdeProgramFields.map (fun x => x.2.1) := by
+  constructor <;> rfl
 
 end MidnightZK.C18
